@@ -255,10 +255,17 @@ class Account:
 
 
 # ------------------------------------------------------------------------------------------------
+_BASE = []
+
+
 def body_for(k, n):
     """n bytes; every 4-byte word = (stream index, word offset) so that any byte names its origin."""
+    if not _BASE:
+        _BASE.append(b"".join(struct.pack(">BBH", 0, (j >> 16) & 255, j & 0xFFFF) for j in range(300 * 256 + 1)))
     words = (n + 3) // 4
-    return b"".join(struct.pack(">BBH", 0xA0 | (k & 15), (j >> 16) & 255, j & 0xFFFF) for j in range(words))[:n]
+    ba = bytearray(_BASE[0][:4 * words])
+    ba[0::4] = bytes([0xA0 | (k & 15)]) * words
+    return bytes(ba[:n])
 
 
 class Plan:
@@ -385,6 +392,8 @@ class Session:
         self.goaway = False
         self.dead = None
         self.datareceived_raised = None
+        self.probes = 0
+        self.next_sid = 1
         self.settings_in_flight = 0  # h2's client acknowledges one pending value *per setting* per ACK,
         self.spin = 0                # so the scheduler keeps at most one SETTINGS frame un-ACKed
 
@@ -411,6 +420,8 @@ class Session:
             isLeaf = True
 
             def render_GET(self, request):
+                if request.path.startswith(b"/p/"):
+                    return b""  # probe: empty body, finished at once
                 k = int(request.path.rsplit(b"/", 1)[1])
                 plans[k].start(request)
                 return server.NOT_DONE_YET
@@ -436,7 +447,7 @@ class Session:
         self.flush()
         self.params = {"streams": self.nstreams, "plans": [p.describe() for p in plans]}
         st = {}
-        iw = rng.choice([None, 0, 1, 2, 10, 100, 1000, 16383, 16384, 16385, 65535, 100000, 1 << 20])
+        iw = rng.choice([None, 0, 0, 0, 1, 2, 10, 100, 1000, 16383, 16384, 16385, 65535, 100000, 1 << 20])
         mf = rng.choice([None, None, 16384, 16385, 32768, 1 << 20])
         if iw is not None:
             st[4] = iw
@@ -568,14 +579,30 @@ class Session:
             self.ctx.count("client_action_refused")
             return False
 
+    def probe(self):
+        """An unrelated request whose resource finishes at once with an empty body.  Its only effect on
+        other streams is to run the server's send loop once more; used to tell "stream is sendable but
+        nobody runs the loop" from "stream is not sendable"."""
+        sid = self.next_sid
+        hdrs = [(b":method", b"GET"), (b":path", b"/p/%d" % self.probes), (b":scheme", b"https"), (b":authority", b"vf.test")]
+        if not self.client_do(self.client.send_headers, sid, hdrs, end_stream=True):
+            return False
+        self.next_sid += 2
+        self.probes += 1
+        self.actions.append(("probe", sid))
+        self.flush()
+        self.pump()
+        return True
+
     def open_stream(self):
         k = len(self.sid_of)
         if k >= self.nstreams:
             return False
-        sid = 1 + 2 * k
+        sid = self.next_sid
         hdrs = [(b":method", b"GET"), (b":path", b"/s/%d" % k), (b":scheme", b"https"), (b":authority", b"vf.test")]
         if not self.client_do(self.client.send_headers, sid, hdrs, end_stream=True):
             return False
+        self.next_sid += 2
         self.sid_of[k] = sid
         self.k_of[sid] = k
         self.received.setdefault(sid, bytearray())
@@ -598,6 +625,14 @@ class Session:
         elif r < 0.32 and live:
             sid = rng.choice(live)
             inc = rng.choice([1, 1, 2, 7, 100, 1000, 16384, 65535, max(1, self.remaining(sid)), 1 << 18])
+            if rng.random() < 0.4:
+                # aligned: the window will close exactly at one of the resource's chunk boundaries, so that the
+                # server's queue for the stream runs empty at the very moment the window does
+                p = self.plans[self.k_of[sid]]
+                j = min(len(p.chunks), p.pos + rng.randint(0, 3))
+                target = sum(len(c) for c in p.chunks[:j]) - len(self.received[sid]) - self.acct.win.get(sid, 0)
+                if target > 0:
+                    inc = target
             if self.acct.win.get(sid, self.acct.init) + inc < MAXWIN and self.client_do(self.client.increment_flow_control_window, inc, sid):
                 a = ("wu", sid, inc)
         elif r < 0.47:
@@ -638,11 +673,21 @@ class Session:
             else:
                 self.t.sim_pause_producer()
                 a = ("transport-pause",)
-        elif r < 0.96 and live:
+        elif r < 0.955 and live:
             sid = rng.choice(live)
+            both = rng.random() < 0.3  # a client cancelling right after replenishing: both frames in one segment
+            if both:
+                self.flush()
+                self.client_do(self.client.increment_flow_control_window, rng.choice([1, 1000, 65535]), rng.choice([sid, None]))
             if self.client_do(self.client.reset_stream, sid):
                 self.client_reset.add(sid)
-                a = ("rst", sid)
+                a = ("wu+rst" if both else "rst", sid)
+                if both:
+                    self.actions.append(a)
+                    if rng.random() < 0.7 and self.open_stream():  # ... and moving on to the next request
+                        self.actions.append(("open", len(self.sid_of) - 1))
+                    self.flush()
+                    a = None
         else:
             a = self.liveness("mid")
         self.drain()
@@ -655,6 +700,9 @@ class Session:
         for _ in range(rng.choice([0, 1, 1, 2, 3])):
             self.mini.iterate()
             self.drain()
+        if a[0] == "wu" and rng.random() < 0.25:
+            if self.liveness("after-window-update"):
+                self.actions.append(("liveness",))
 
     def liveness(self, where):
         """Oracle 4 at a quiescent point."""
@@ -665,6 +713,7 @@ class Session:
         if self.dead:
             return None
         self.ctx.count("liveness_checks")
+        parked = []  # (stream, info, bytes received): written-but-unsent data, windows open, nothing scheduled
         for sid in self.live_streams():
             p = self.plans[self.k_of[sid]]
             if p.lost:
@@ -682,6 +731,8 @@ class Session:
                     # WINDOW_UPDATE came since; H2Connection.dataReceived ignores RemoteSettingsChanged
                     self.violation("window-opened-by-settings-not-noticed", "a SETTINGS_INITIAL_WINDOW_SIZE increase opened the stream window but "
                                    "the blocked stream / paused producer is not resumed until some later WINDOW_UPDATE arrives", info)
+                elif unsent > 0 and self.mini.idle():
+                    parked.append((sid, info, len(self.received[sid])))
                 elif unsent > 0:
                     self.violation("stalled-with-open-window", "body bytes written by the resource stay unsent although the stream "
                                    "window, the connection window and the transport are open and the reactor was pumped to quiescence", info)
@@ -690,6 +741,28 @@ class Session:
                                    "stream's producer stays paused", info)
             elif unsent == 0 and p.finished and not self.ended.get(sid):
                 self.violation("end-stream-not-sent", "the resource finished and all its bytes were delivered but END_STREAM never came", info)
+        if parked:
+            # Narrow key for one mechanism: the bytes were queued while the window was closed and the send loop
+            # had parked itself ("no stream sendable"); WINDOW_UPDATE made the stream sendable again but nothing
+            # runs the loop.  Signature: an unrelated empty response (probe) is enough to get the bytes moving.
+            # If the probe does not help, the stream is not sendable at all: different mechanism, generic key.
+            known = any(v[0] == "window-update-does-not-wake-parked-send-loop" for v in self.violations)
+            if known or self.probes >= 6 or not self.probe() or self.dead:
+                if not known:
+                    self.ctx.count("parked_stall_not_classified")
+                    sid, info, _ = parked[0]
+                    self.violation("stalled-with-open-window", "body bytes written by the resource stay unsent although the stream window, the "
+                                   "connection window and the transport are open and nothing is scheduled (probe not possible)", info)
+            else:
+                for sid, info, had in parked:
+                    if len(self.received[sid]) > had:
+                        self.violation("window-update-does-not-wake-parked-send-loop", "WINDOW_UPDATE reopened the window of a stream with queued "
+                                       "data but the parked send loop is not woken: the data stays unsent until an unrelated response "
+                                       "(here: a probe request) happens to run the loop", info)
+                    else:
+                        self.violation("stalled-with-open-window", "body bytes written by the resource stay unsent although the stream window, "
+                                       "the connection window and the transport are open; even an unrelated response that runs the send "
+                                       "loop does not move them", info)
         return ("liveness",)
 
     # ---- whole session ----
@@ -780,7 +853,9 @@ class Session:
             # _sendPrioritisedData sliced with the negative size; h2 refused the frame, the exception killed the
             # send loop.  Stalls in the same session are its consequence, not a second mechanism.
             errors = [e for e in errors if e not in negative]
-            consequences = ("stalled-with-open-window", "not-completed-after-windows-opened", "end-stream-not-sent")
+            consequences = ("stalled-with-open-window", "not-completed-after-windows-opened", "end-stream-not-sent",
+                            "window-update-does-not-wake-parked-send-loop", "window-opened-by-settings-not-noticed",
+                            "producer-not-resumed-with-open-window")
             self.violations = [v for v in self.violations if v[0] not in consequences]
             self.violation("send-loop-dies-on-negative-window",
                            "after SETTINGS_INITIAL_WINDOW_SIZE made a stream window negative the send loop raised FlowControlError "
@@ -860,7 +935,7 @@ def run(ctx):
     except ImportError as e:
         ctx.inconclusive("prerequisite missing: %s" % e)
         return
-    for i in ctx.cases(300, 30000):
+    for i in ctx.cases(1000, 20000):
         run_session(ctx, i)
 
 
